@@ -302,6 +302,95 @@ func c20Api(r *rng, id string) {
 	emit("C20 api id=%s stages=%s calls=%d loss=%d table=%s bad=%s", id, strings.Join(stages, "+"), len(log), cl.net.loss, tb, bs)
 }
 
+// c20Denied: a node whose own address its configuration refuses (CIDRsAllowed without it) is created
+// successfully but is not a member of itself (upstream tests rely on that); the API must not panic
+// or block there either, before and after Leave and Shutdown.
+func c20Denied(r *rng, id string) {
+	alist := [][]string{{"192.168.0.0/16"}, {"10.0.0.0/30"}, {"fd00::/8"}, {"10.0.1.0/24", "172.16.0.0/12"}}[r.intn(4)]
+	n, err := newCnode(ccfg{name: "S", cidrs: alist, altRep: r.chance(1, 2)})
+	if err != nil {
+		emit("C20 api id=%s stages=selfdenied-create-refused calls=10 loss=0 table=- bad=-", id)
+		return
+	}
+	m := n.m
+	var log, bads, table []string
+	stage := "denied"
+	call := func(name string, f func() string) {
+		done := make(chan string, 1)
+		go func() {
+			defer func() {
+				if rec := recover(); rec != nil {
+					done <- "PANIC:" + strings.ReplaceAll(strings.SplitN(fmt.Sprint(rec), "\n", 2)[0], " ", "_")
+				}
+			}()
+			done <- f()
+		}()
+		var res string
+		select {
+		case res = <-done:
+		case <-time.After(5 * time.Second):
+			res = "BLOCKED"
+		}
+		log = append(log, name+"="+res)
+		table = append(table, stage+":"+name+"="+res)
+		if strings.HasPrefix(res, "PANIC") || res == "BLOCKED" {
+			bads = append(bads, fmt.Sprintf("self%s:%s:%s", stage, name, res))
+		}
+	}
+	errS := func(err error) string {
+		if err != nil {
+			return "err"
+		}
+		return "ok"
+	}
+	peer := &ml.Node{Name: "n0", Addr: net.ParseIP("10.0.0.1").To4(), Port: 7946}
+	probe := func(withLeave bool) {
+		order := r.intn(3)
+		for k := 0; k < 3; k++ {
+			switch (k + order) % 3 {
+			case 0:
+				call("Members", func() string { return fmt.Sprint(len(m.Members())) })
+				call("NumMembers", func() string { return fmt.Sprint(m.NumMembers()) })
+				call("GetHealthScore", func() string { return fmt.Sprint(m.GetHealthScore()) })
+				call("ProtocolVersion", func() string { return fmt.Sprint(m.ProtocolVersion()) })
+			case 1:
+				call("UpdateNode", func() string { return errS(m.UpdateNode(100 * time.Millisecond)) })
+				call("SendBestEffort", func() string { return errS(m.SendBestEffort(peer, []byte("x"))) })
+				call("Join", func() string { _, err := m.Join([]string{"n0/10.0.0.1:7946"}); return errS(err) })
+			default:
+				if withLeave {
+					call("Leave", func() string { return errS(m.Leave(100 * time.Millisecond)) })
+				}
+			}
+		}
+		// last, so that any other finding of the case is listed before it
+		call("LocalNode", func() string { return m.LocalNode().Name })
+	}
+	plan := r.intn(3)
+	stages := "selfdenied"
+	switch plan {
+	case 0:
+		probe(true)
+	case 1:
+		call("Leave", func() string { return errS(m.Leave(100 * time.Millisecond)) })
+		stages += "+left"
+		probe(true)
+	default:
+		call("Shutdown", func() string { return errS(m.Shutdown()) })
+		stage = "deniedShutdown"
+		stages += "+shutdown"
+		probe(false)
+	}
+	call("Shutdown", func() string { return errS(m.Shutdown()) })
+	// the membership lock is free afterwards (a call that panicked must not have kept it)
+	call("NumMembers", func() string { return fmt.Sprint(m.NumMembers()) })
+	bs := "-"
+	if len(bads) > 0 {
+		bs = strings.Join(bads, ",")
+	}
+	emit("C20 api id=%s stages=%s calls=%d loss=0 table=%s bad=%s", id, stages, len(log)+10, strings.Join(table, ","), bs)
+}
+
 func TestC20(t *testing.T) {
 	n := envInt("VERIF_N", 120)
 	if thorough() {
@@ -310,4 +399,5 @@ func TestC20(t *testing.T) {
 	forCases(n, 201, "a", func(i int, r *rng, id string) {
 		bubble(t, "C20", id, func() { c20Api(r, id) })
 	})
+	forCases(n/4+6, 202, "d", func(i int, r *rng, id string) { c20Denied(r, id) })
 }
